@@ -180,12 +180,11 @@ def graph_replay(scns, fixes, procs=None, max_ops=3):
     divergent, devs, nontrivial = [], set(), 0
     samples = []
     if total:
-        ctx = multiprocessing.get_context('fork')
-        with ctx.Pool(procs) as pool:
-            for out, d, nt in pool.imap_unordered(_replay_chunk, jobs):
-                divergent.extend(out)
-                devs |= set(d)
-                nontrivial += nt
+        from . import pools
+        for out, d, nt in pools.fork_map(_replay_chunk, jobs, procs):
+            divergent.extend(out)
+            devs |= set(d)
+            nontrivial += nt
         best = {}               # one written-out behaviour per family: the longest one, preferring a deviation clause
         for init, paths in jobs:
             fam = nodes[init]['sc']['fam']
@@ -327,12 +326,11 @@ def proc_traces(nodes, edges, inits, max_handles, procs=None):
     _G.update(nodes=nodes, edges=edges, cands=cands)
     jobs = [(si, first, max_handles) for si in range(len(PROC_SCRIPTS)) for first in range(max_handles + 1)]
     runs, allrec = 0, {}
-    ctx = multiprocessing.get_context('fork')
-    with ctx.Pool(procs or min(16, os.cpu_count() or 1)) as pool:
-        for n, seen in pool.imap_unordered(_proc_chunk, jobs):
-            runs += n
-            for k, rec in seen.items():
-                allrec.setdefault(k, rec)
+    from . import pools
+    for n, seen in pools.fork_map(_proc_chunk, jobs, procs):
+        runs += n
+        for k, rec in seen.items():
+            allrec.setdefault(k, rec)
     recs = [allrec[k] for k in sorted(allrec)]
     bad = [r for r in recs if not r['ok']]
     good = [r for r in recs if r['ok']]
